@@ -1,13 +1,14 @@
 """C08 — the calculation graph is consistent and complete (oracle: harness/graph_oracle.py)."""
 from harness.runner import PropResult
-from harness import graph_oracle as go, engine_oracles as eo
+from harness import graph_oracle as go, engine_oracles as eo, linksbk
 
 ASSUMPTIONS = [
     "recorded ancestors/children are compared as sets; the graph is checked at slot level for cycles",
     "completeness is tested by perturbation: an input is changed, a fresh system built, and every calculated attribute that "
     "differs must have the input among its recorded transitive ancestors",
 ]
-TRUSTED = ["graph exporter harness/graphx.py"]
+TRUSTED = ["graph exporter harness/graphx.py",
+           "Model F covers plain attributes only: values held in ExplainableObjectDict (per-usage-pattern dicts) and lists are not modelled"]
 GENKW = dict(allow_delete=False, allow_dumps=False)
 
 
@@ -43,6 +44,18 @@ def run(ctx, intensify=False):
                                         "graphs_not_meeting_them_other": sum(o.get("hyp_not_met_other", 0) for o in kouts)}})
     res.suites.append({"name": "graph-checks", "cases": cases, "observations": graphs, "disagreements": [], "inconclusive": 0,
                        "distribution": {"phases": phases, "nodes_after_build": nodes, "chains_checked_systems": chains, "perturbed_systems": pert}})
+    # K-bookkeeping: Model F (link bookkeeping) vs the real ExplainableObject / __setattr__ / replace… code
+    bouts = ctx.pmap(linksbk.shard, [(ctx.seed * 1000 + 300 + i, ctx.n(25, 400) * (2 if intensify else 1)) for i in range(ctx.nproc)])
+    bkinds, berrs = {}, {}
+    for o in bouts:
+        for k, v in o["kinds"].items():
+            bkinds[k] = bkinds.get(k, 0) + v
+        for k, v in o["errs"].items():
+            berrs[k] = berrs.get(k, 0) + v
+    res.suites.append({"name": "K-bookkeeping", "cases": sum(o["cases"] for o in bouts), "observations": sum(o["ops"] for o in bouts),
+                       "disagreements": sum((o["disagreements"] for o in bouts), []), "inconclusive": 0,
+                       "distribution": {"operations": bkinds, "sequences_ending_in_an_exception": berrs,
+                                        "model_states_not_mirrored": sum(o["mirror_false"] for o in bouts)}})
     res.evaluations = graphs
     res.distinct_nontrivial = max(2, len(hashes))
     res.rule = ("random systems; the real graph is exported after the build, after a random accepted edit history, after a "
